@@ -905,6 +905,21 @@ fn preempt_pairs_raw(verif_seed: u64, tier: &str) -> Vec<PreemptPair> {
     out
 }
 
+/// Worlds of the cold-start sweep (no neutral prefix, no warm-up: one fresh process per position). Their characters
+/// touch every lazily initialised table: the three class tables, escaping of metacharacters and control characters,
+/// character classes, repetition detection.
+pub fn cold_pairs() -> Vec<PreemptPair> {
+    let dws = [Setter::Digits, Setter::Words, Setter::Spaces];
+    let none: [Setter; 0] = [];
+    let rw = [Setter::Repetitions, Setter::Words];
+    vec![
+        pair_plain(&["a1 $\t"], &["$\t", ":"], &dws, &dws),
+        pair_plain(&["a", "b", "c."], &["\u{e1}", "b", "c$"], &none, &none),
+        pair_plain(&["aaa", "aa."], &["b$b", "1"], &rw, &rw),
+        pair_plain(&["a", "aa", "ab"], &["x", "xx", "xy"], &[Setter::NoAnchors], &[Setter::NoAnchors]),
+    ]
+}
+
 /// One run of the sweep: client 0 is parked `steps` instructions after its `visit`-th hook call, client 1 runs its
 /// whole history in the gap. `intruder_parked_at` > 0: client 1 starts first and is itself parked at that hook
 /// visit of its build until client 0 is preempted (so it resumes in the middle of its own build).
